@@ -91,15 +91,13 @@ def in_class(kid, d):
         return c == CAF and s in ALAC and ch > 8
     if kid == "KF-C10-vox-odd":
         return c == RAW and s == VOX and FRAMES % 2 == 1
-    if kid == "KF-C10-ircam-rate":
-        return c == IRCAM and sr >= 2147483584
     return False
 
 
 def has_signature(kid, d, errname):
     if kid == "KF-C10-rate0":
         if "DIED" in d:
-            return d.get("stage") == "open" and d.get("how") == "signal8"
+            return False      # the divisions by the rate in the HTK / SDS / VOC header writers are repaired: a death at 0 Hz is a violation again
         return d["chk"] == "1" and d["open"] == "0" and errname.get(int(d["err"]), "") == "bad_sf_info"
     if "DIED" in d or d.get("open") != "1":
         return False
@@ -108,8 +106,6 @@ def has_signature(kid, d, errname):
         return ok_w and d["close"] == "0" and d["tmp"] == "1" and d["re"] == "0"
     if kid == "KF-C10-vox-odd":
         return d["w"] == ",".join([str(FRAMES + 1)] * 4) and d["close"] == "0" and d["tmp"] == "0" and d["re"] == "1"
-    if kid == "KF-C10-ircam-rate":
-        return ok_w and d["close"] == "0" and d["tmp"] == "0" and d["re"] == "0"
     return False
 
 
@@ -418,6 +414,7 @@ def run_checks(ctx):
             ctx.violation("major-%x" % m, "# C10: major format %08x has no subtype in the subtype list that is accepted and writable (1 or 2 channels, 44100 Hz)\n--- script\nfcheck %x 1 44100\n" % (m, m | 2))
 
     # ---- 4. known findings: replay each witness; print while it still fails with its signature ----
+    ctx.run_regressions()     # script witnesses of repaired defects (expect-last lines), e.g. KF-C10-rate0-fpe
     for e in ctx.known:
         wp = e.get("witness_point")
         if not wp:
